@@ -570,7 +570,7 @@ func jsonHistory(res *evid.Result, idx int, dir string) {
 	now := func() int64 { return int64(time.Since(start)) }
 	const writers, readers, opsEach = 3, 5, 40
 	type add struct {
-		names []string
+		names  []string
 		t0, t1 int64
 	}
 	type scan struct {
